@@ -673,6 +673,23 @@ impl rustc_driver::Callbacks for Cb {
                     ]));
                 }
                 let cx = Cx { tcx, tenv: TypingEnv::post_analysis(tcx, did), adts: adts.clone() };
+                // associated constants of the trait as seen through this (non-generic) impl, defaults included
+                let mut consts = Vec::new();
+                if tcx.generics_of(did).count() == 0 {
+                    if let Some(t) = tcx.impl_opt_trait_ref(did) {
+                        let tref = t.skip_binder();
+                        for it in tcx.associated_items(tref.def_id).in_definition_order() {
+                            if !format!("{:?}", it.kind).starts_with("Const") {
+                                continue;
+                            }
+                            let uv = rustc_middle::mir::UnevaluatedConst { def: it.def_id, args: tref.args, promoted: None };
+                            if let Ok(cv) = tcx.const_eval_resolve(TypingEnv::fully_monomorphized(), uv, rustc_span::DUMMY_SP) {
+                                let ty = tcx.type_of(it.def_id).instantiate(tcx, tref.args).skip_norm_wip();
+                                consts.push(J::O(vec![("name", s(it.name().to_string())), ("value", cx.const_value(cv, ty, 0))]));
+                            }
+                        }
+                    }
+                }
                 impls.push(J::O(vec![
                     ("id", s(did_id(tcx, did))),
                     ("trait", tr),
@@ -680,6 +697,7 @@ impl rustc_driver::Callbacks for Cb {
                     ("self", s(st)),
                     ("generics", J::I(tcx.generics_of(did).count() as i128)),
                     ("items", J::A(its)),
+                    ("consts", J::A(consts)),
                     ("span", cx.span(tcx.def_span(did))),
                 ]));
             }
